@@ -1,6 +1,1089 @@
 package engine
 
-// Kernel is the POSIX model (see kernel.go).
-type Kernel struct{ m *Machine }
+import (
+	"fmt"
+	"go/types"
+	"sort"
+	"strings"
 
-func newKernel(m *Machine) *Kernel { return &Kernel{m: m} }
+	"golang.org/x/tools/go/ssa"
+)
+
+// Kernel is a small POSIX model: one directory tree, regular files with volatile
+// and durable contents, a descriptor table, optional single-fault injection and
+// crash points. All of it is part of the trusted base of the checks that use it.
+
+const (
+	oRDONLY    = 0x0
+	oWRONLY    = 0x1
+	oRDWR      = 0x2
+	oCREAT     = 0x40
+	oEXCL      = 0x80
+	oTRUNC     = 0x200
+	oAPPEND    = 0x400
+	oDIRECTORY = 0x10000
+
+	eNOENT  = 2
+	eIO     = 5
+	eBADF   = 9
+	eEXIST  = 17
+	eNOTDIR = 20
+	eISDIR  = 21
+	eINVAL  = 22
+	eNOSPC  = 28
+	eNOTEMPTY = 39
+
+	sIFREG = 0x8000
+	sIFDIR = 0x4000
+)
+
+// fileData is the content of a regular file: Size may be symbolic; Cells[i] is
+// meaningful for i < Size. Bytes at i ≥ len(Cells) (but < Size) are unknown and
+// materialised on demand.
+type fileData struct {
+	Cells []*Term
+	Size  *Term // BV64
+}
+
+type dataOp struct {
+	kind string // "write", "trunc"
+	off  int
+	data []*Term
+	size *Term
+}
+
+type Inode struct {
+	id      int
+	dir     bool
+	vol     fileData
+	dur     fileData
+	pending []dataOp
+	entries []*dirent // directories
+	nlink   int
+	unknown int // counter for unknown-content symbols
+}
+
+type dirent struct {
+	name string
+	ino  *Inode
+}
+
+type nsOp struct {
+	kind          string // "create", "mkdir", "unlink", "rename", "link"
+	dir, dir2     *Inode
+	name, name2   string
+	ino           *Inode
+}
+
+type fdesc struct {
+	ino    *Inode
+	flags  int
+	off    int
+	dirpos int // ReadDirent cursor
+	path   string
+}
+
+type Kernel struct {
+	m        *Machine
+	root     *Inode
+	fds      map[int]*fdesc
+	nextIno  int
+	Trace    []string
+	nsys     int
+	FaultsOn bool
+	Faulted  string
+	MaxFault int
+	nFault   int
+	CrashAt  int // syscall ordinal (1-based) that is not executed; 0 = never
+	crashed  bool
+	// durable namespace: snapshot taken lazily; pending namespace operations since
+	nsPending []nsOp
+	durRoot   map[*Inode][]*dirent // durable entries per directory (snapshot at first ns op)
+	ShortDir  bool                 // ReadDirent returns entries in nondeterministic chunks
+	touched   []string
+}
+
+type kernelCrash struct{}
+
+func newKernel(m *Machine) *Kernel {
+	k := &Kernel{m: m, fds: map[int]*fdesc{}, MaxFault: 1}
+	k.root = k.newInode(true)
+	return k
+}
+
+func (k *Kernel) newInode(dir bool) *Inode {
+	k.nextIno++
+	z := k.m.S.Const(64, 0)
+	return &Inode{id: k.nextIno, dir: dir, vol: fileData{Size: z}, dur: fileData{Size: z}}
+}
+
+func (k *Kernel) errno(e int) Iface {
+	sp := k.m.P.Pkgs["syscall"]
+	if sp == nil {
+		k.m.unsupported("package syscall not loaded")
+	}
+	t := sp.Type("Errno").Type()
+	return Iface{T: t, V: k.m.S.Const(64, uint64(e))}
+}
+
+func (k *Kernel) lookup(d *Inode, name string) *dirent {
+	for _, e := range d.entries {
+		if e.name == name {
+			return e
+		}
+	}
+	return nil
+}
+
+// resolve walks path from dir; returns the parent directory, the final name and the entry (nil if absent).
+func (k *Kernel) resolve(dir *Inode, path string) (parent *Inode, name string, ent *dirent, errno int) {
+	if strings.HasPrefix(path, "/") {
+		dir = k.root
+	}
+	parts := []string{}
+	for _, p := range strings.Split(path, "/") {
+		if p == "" || p == "." {
+			continue
+		}
+		parts = append(parts, p)
+	}
+	if len(parts) == 0 {
+		return nil, "", &dirent{name: ".", ino: dir}, 0
+	}
+	cur := dir
+	for i, p := range parts {
+		if !cur.dir {
+			return nil, "", nil, eNOTDIR
+		}
+		e := k.lookup(cur, p)
+		if i == len(parts)-1 {
+			return cur, p, e, 0
+		}
+		if e == nil {
+			return nil, "", nil, eNOENT
+		}
+		cur = e.ino
+	}
+	return nil, "", nil, eINVAL
+}
+
+func (k *Kernel) dirOf(dirfd int) (*Inode, int) {
+	const atFDCWD = -100
+	if dirfd == atFDCWD {
+		return k.root, 0
+	}
+	f := k.fds[dirfd]
+	if f == nil {
+		return nil, eBADF
+	}
+	if !f.ino.dir {
+		return nil, eNOTDIR
+	}
+	return f.ino, 0
+}
+
+func (k *Kernel) allocFd(f *fdesc) int {
+	fd := 3
+	for k.fds[fd] != nil {
+		fd++
+	}
+	k.fds[fd] = f
+	return fd
+}
+
+// enter is called at the start of every syscall: trace, preemption, crash point, fault injection.
+// It returns a non-zero errno if the call is to fail without effect.
+func (k *Kernel) enter(name string, detail string) int {
+	m := k.m
+	if k.crashed {
+		panic(&kernelCrash{})
+	}
+	if m.Sched.PreemptSyscalls {
+		m.Yield(nil, "syscall "+name)
+	}
+	k.nsys++
+	if k.CrashAt != 0 && k.nsys == k.CrashAt {
+		k.crashed = true
+		k.Trace = append(k.Trace, "CRASH before "+name+"("+detail+")")
+		panic(&kernelCrash{})
+	}
+	k.Trace = append(k.Trace, name+"("+detail+")")
+	if k.FaultsOn && k.nFault < k.MaxFault {
+		if m.Choose(2, "fault") == 1 {
+			k.nFault++
+			k.Faulted = name
+			k.Trace[len(k.Trace)-1] += " = EIO (injected)"
+			return eIO
+		}
+	}
+	return 0
+}
+
+func (k *Kernel) snapshotNS() {
+	if k.durRoot != nil {
+		return
+	}
+	k.durRoot = map[*Inode][]*dirent{}
+	var walk func(d *Inode)
+	walk = func(d *Inode) {
+		cp := make([]*dirent, len(d.entries))
+		for i, e := range d.entries {
+			cp[i] = &dirent{name: e.name, ino: e.ino}
+			if e.ino.dir {
+				walk(e.ino)
+			}
+		}
+		k.durRoot[d] = cp
+	}
+	walk(k.root)
+}
+
+func (k *Kernel) nsRecord(op nsOp) {
+	k.snapshotNS()
+	k.nsPending = append(k.nsPending, op)
+}
+
+func applyNs(entries map[*Inode][]*dirent, op nsOp) {
+	rm := func(d *Inode, name string) {
+		es := entries[d]
+		for i, e := range es {
+			if e.name == name {
+				entries[d] = append(append([]*dirent{}, es[:i]...), es[i+1:]...)
+				return
+			}
+		}
+	}
+	switch op.kind {
+	case "create", "mkdir", "link":
+		rm(op.dir, op.name)
+		entries[op.dir] = append(entries[op.dir], &dirent{name: op.name, ino: op.ino})
+	case "unlink":
+		rm(op.dir, op.name)
+	case "rename":
+		rm(op.dir, op.name)
+		rm(op.dir2, op.name2)
+		entries[op.dir2] = append(entries[op.dir2], &dirent{name: op.name2, ino: op.ino})
+	}
+}
+
+// ---------------------------------------------------------------------------
+// file data operations (symbolic size aware)
+
+func (k *Kernel) cellAt(ino *Inode, fd *fileData, i int) *Term {
+	for len(fd.Cells) <= i {
+		ino.unknown++
+		fd.Cells = append(fd.Cells, k.m.S.Var(fmt.Sprintf("kfile%d_unk%d", ino.id, ino.unknown), 8))
+	}
+	return fd.Cells[i]
+}
+
+// normalize makes cells [0,n) explicit: cell i = ite(i < size, cell, 0).
+func (k *Kernel) validCell(ino *Inode, fd *fileData, i int) *Term {
+	s := k.m.S
+	in := s.ULt(s.Const(64, uint64(i)), fd.Size)
+	if in.IsFalse() {
+		return s.Const(8, 0)
+	}
+	return s.Ite(in, k.cellAt(ino, fd, i), s.Const(8, 0))
+}
+
+func (k *Kernel) dataWrite(ino *Inode, fd *fileData, off int, data []*Term) {
+	s := k.m.S
+	if len(data) == 0 {
+		return
+	}
+	// the gap between the old size and off reads as zeros
+	for i := 0; i < off; i++ {
+		if i < len(fd.Cells) || !s.ULt(s.Const(64, uint64(i)), fd.Size).IsFalse() {
+			c := k.validCell(ino, fd, i)
+			for len(fd.Cells) <= i {
+				fd.Cells = append(fd.Cells, s.Const(8, 0))
+			}
+			fd.Cells[i] = c
+		} else {
+			for len(fd.Cells) <= i {
+				fd.Cells = append(fd.Cells, s.Const(8, 0))
+			}
+		}
+	}
+	for j, d := range data {
+		for len(fd.Cells) <= off+j {
+			if s.ULt(s.Const(64, uint64(len(fd.Cells))), fd.Size).IsFalse() {
+				fd.Cells = append(fd.Cells, s.Const(8, 0))
+			} else {
+				k.cellAt(ino, fd, len(fd.Cells))
+			}
+		}
+		fd.Cells[off+j] = d
+	}
+	end := s.Const(64, uint64(off+len(data)))
+	fd.Size = s.Ite(s.ULt(fd.Size, end), end, fd.Size)
+}
+
+func (k *Kernel) dataTrunc(ino *Inode, fd *fileData, n int) {
+	cells := make([]*Term, n)
+	for i := 0; i < n; i++ {
+		cells[i] = k.validCell(ino, fd, i)
+	}
+	fd.Cells = cells
+	fd.Size = k.m.S.Const(64, uint64(n))
+}
+
+func cloneData(d fileData) fileData {
+	return fileData{Cells: append([]*Term(nil), d.Cells...), Size: d.Size}
+}
+
+// ---------------------------------------------------------------------------
+// syscalls
+
+func (k *Kernel) sysOpenat(dirfd int, path string, flags int, what string) (int, Iface) {
+	if e := k.enter(what, fmt.Sprintf("%d,%q,%#x", dirfd, path, flags)); e != 0 {
+		return -1, k.errno(e)
+	}
+	k.touched = append(k.touched, path)
+	dir, en := k.dirOf(dirfd)
+	if en != 0 && !strings.HasPrefix(path, "/") {
+		return -1, k.errno(en)
+	}
+	if dir == nil {
+		dir = k.root
+	}
+	parent, name, ent, en := k.resolve(dir, path)
+	if en != 0 {
+		return -1, k.errno(en)
+	}
+	if ent == nil {
+		if flags&oCREAT == 0 {
+			return -1, k.errno(eNOENT)
+		}
+		ino := k.newInode(false)
+		ino.nlink = 1
+		parent.entries = append(parent.entries, &dirent{name: name, ino: ino})
+		k.nsRecord(nsOp{kind: "create", dir: parent, name: name, ino: ino})
+		ent = k.lookup(parent, name)
+	} else {
+		if flags&oCREAT != 0 && flags&oEXCL != 0 {
+			return -1, k.errno(eEXIST)
+		}
+		if flags&oDIRECTORY != 0 && !ent.ino.dir {
+			return -1, k.errno(eNOTDIR)
+		}
+		if ent.ino.dir && flags&(oWRONLY|oRDWR) != 0 {
+			return -1, k.errno(eISDIR)
+		}
+		if flags&oTRUNC != 0 && !ent.ino.dir && flags&(oWRONLY|oRDWR) != 0 {
+			k.dataTrunc(ent.ino, &ent.ino.vol, 0)
+			ent.ino.pending = append(ent.ino.pending, dataOp{kind: "trunc", off: 0})
+		}
+	}
+	return k.allocFd(&fdesc{ino: ent.ino, flags: flags, path: path}), Iface{}
+}
+
+func (k *Kernel) sysClose(fd int) Iface {
+	if e := k.enter("close", fmt.Sprint(fd)); e != 0 {
+		// Linux releases the descriptor even when close reports an error
+		delete(k.fds, fd)
+		return k.errno(e)
+	}
+	if k.fds[fd] == nil {
+		return k.errno(eBADF)
+	}
+	delete(k.fds, fd)
+	return Iface{}
+}
+
+func (k *Kernel) file(fd int, needWrite, needRead bool) (*fdesc, int) {
+	f := k.fds[fd]
+	if f == nil {
+		return nil, eBADF
+	}
+	if f.ino.dir {
+		return nil, eISDIR
+	}
+	acc := f.flags & 3
+	if needWrite && acc == oRDONLY {
+		return nil, eBADF
+	}
+	if needRead && acc == oWRONLY {
+		return nil, eBADF
+	}
+	return f, 0
+}
+
+func (k *Kernel) sysPwrite(fd int, data []*Term, off *Term, what string) (*Term, Iface) {
+	m := k.m
+	s := m.S
+	if e := k.enter(what, fmt.Sprintf("%d,len=%d,off=%s", fd, len(data), off)); e != 0 {
+		return s.Const(64, ^uint64(0)), k.errno(e)
+	}
+	f, en := k.file(fd, true, false)
+	if en != 0 {
+		return s.Const(64, ^uint64(0)), k.errno(en)
+	}
+	var o int
+	if off == nil { // write(2): at the descriptor offset, or at EOF with O_APPEND
+		if f.flags&oAPPEND != 0 {
+			o = int(m.Concretize(f.ino.vol.Size, "file size for append"))
+		} else {
+			o = f.off
+		}
+	} else {
+		if !off.IsConst() && m.Branch(s.SLt(off, s.Const(64, 0))) {
+			return s.Const(64, ^uint64(0)), k.errno(eINVAL)
+		}
+		ov := m.Concretize(off, "pwrite offset")
+		if int64(ov) < 0 {
+			return s.Const(64, ^uint64(0)), k.errno(eINVAL)
+		}
+		if ov > 1<<26 {
+			m.end("bound", "pwrite offset beyond the modelled file size")
+		}
+		o = int(ov)
+	}
+	k.dataWrite(f.ino, &f.ino.vol, o, data)
+	f.ino.pending = append(f.ino.pending, dataOp{kind: "write", off: o, data: append([]*Term(nil), data...)})
+	if off == nil {
+		f.off = o + len(data)
+	}
+	return s.Const(64, uint64(len(data))), Iface{}
+}
+
+func (k *Kernel) sysPread(fd int, buf Slice, off *Term) (*Term, Iface) {
+	m := k.m
+	s := m.S
+	if e := k.enter("pread", fmt.Sprintf("%d,len=%d,off=%s", fd, buf.Len, off)); e != 0 {
+		return s.Const(64, ^uint64(0)), k.errno(e)
+	}
+	f, en := k.file(fd, false, true)
+	if en != 0 {
+		return s.Const(64, ^uint64(0)), k.errno(en)
+	}
+	if !off.IsConst() && m.Branch(s.SLt(off, s.Const(64, 0))) {
+		return s.Const(64, ^uint64(0)), k.errno(eINVAL)
+	}
+	if off.IsConst() && int64(off.Val) < 0 {
+		return s.Const(64, ^uint64(0)), k.errno(eINVAL)
+	}
+	size := f.ino.vol.Size
+	// offset at or beyond EOF: nothing read (no need to know the offset concretely)
+	if !m.Branch(s.ULt(off, size)) {
+		return s.Const(64, 0), Iface{}
+	}
+	ov := m.Concretize(off, "pread offset")
+	if ov > 1<<26 {
+		m.end("bound", "pread offset beyond the modelled file size")
+	}
+	o := int(ov)
+	old := m.SliceBytes(buf)
+	arr := (*m.cell(buf.Base)).(*ArrayV)
+	m.accessRange(buf, true)
+	n := s.Const(64, 0)
+	for j := 0; j < buf.Len; j++ {
+		in := s.ULt(s.Const(64, uint64(o+j)), size)
+		if in.IsFalse() {
+			break
+		}
+		arr.E[buf.Off+j] = s.Ite(in, k.cellAt(f.ino, &f.ino.vol, o+j), old[j])
+		n = s.Add(n, s.Ite(in, s.Const(64, 1), s.Const(64, 0)))
+	}
+	return n, Iface{}
+}
+
+func (k *Kernel) sysFsync(fd int) Iface {
+	if e := k.enter("fsync", fmt.Sprint(fd)); e != 0 {
+		return k.errno(e)
+	}
+	f := k.fds[fd]
+	if f == nil {
+		return k.errno(eBADF)
+	}
+	if !f.ino.dir {
+		f.ino.dur = cloneData(f.ino.vol)
+		f.ino.pending = nil
+	}
+	return Iface{}
+}
+
+func (k *Kernel) sysFtruncate(fd int, length *Term) Iface {
+	m := k.m
+	if e := k.enter("ftruncate", fmt.Sprintf("%d,%s", fd, length)); e != 0 {
+		return k.errno(e)
+	}
+	f, en := k.file(fd, true, false)
+	if en != 0 {
+		return k.errno(en)
+	}
+	if !length.IsConst() && m.Branch(m.S.SLt(length, m.S.Const(64, 0))) {
+		return k.errno(eINVAL)
+	}
+	n := m.Concretize(length, "ftruncate length")
+	if int64(n) < 0 {
+		return k.errno(eINVAL)
+	}
+	if n > 1<<26 {
+		m.end("bound", "ftruncate length beyond the modelled file size")
+	}
+	k.dataTrunc(f.ino, &f.ino.vol, int(n))
+	f.ino.pending = append(f.ino.pending, dataOp{kind: "trunc", off: int(n)})
+	return Iface{}
+}
+
+func (k *Kernel) sysMkdirat(dirfd int, path string) Iface {
+	if e := k.enter("mkdirat", fmt.Sprintf("%d,%q", dirfd, path)); e != 0 {
+		return k.errno(e)
+	}
+	dir, en := k.dirOf(dirfd)
+	if en != 0 {
+		return k.errno(en)
+	}
+	parent, name, ent, en := k.resolve(dir, path)
+	if en != 0 {
+		return k.errno(en)
+	}
+	if ent != nil {
+		return k.errno(eEXIST)
+	}
+	ino := k.newInode(true)
+	parent.entries = append(parent.entries, &dirent{name: name, ino: ino})
+	k.nsRecord(nsOp{kind: "mkdir", dir: parent, name: name, ino: ino})
+	return Iface{}
+}
+
+func (k *Kernel) sysUnlinkat(dirfd int, path string) Iface {
+	if e := k.enter("unlinkat", fmt.Sprintf("%d,%q", dirfd, path)); e != 0 {
+		return k.errno(e)
+	}
+	k.touched = append(k.touched, path)
+	dir, en := k.dirOf(dirfd)
+	if en != 0 {
+		return k.errno(en)
+	}
+	parent, name, ent, en := k.resolve(dir, path)
+	if en != 0 {
+		return k.errno(en)
+	}
+	if ent == nil || parent == nil {
+		return k.errno(eNOENT)
+	}
+	if ent.ino.dir {
+		return k.errno(eISDIR)
+	}
+	k.removeEntry(parent, name)
+	ent.ino.nlink--
+	k.nsRecord(nsOp{kind: "unlink", dir: parent, name: name})
+	return Iface{}
+}
+
+func (k *Kernel) removeEntry(d *Inode, name string) {
+	for i, e := range d.entries {
+		if e.name == name {
+			d.entries = append(append([]*dirent{}, d.entries[:i]...), d.entries[i+1:]...)
+			return
+		}
+	}
+}
+
+func (k *Kernel) sysRenameat(ofd int, opath string, nfd int, npath string) Iface {
+	if e := k.enter("renameat", fmt.Sprintf("%d,%q,%d,%q", ofd, opath, nfd, npath)); e != 0 {
+		return k.errno(e)
+	}
+	k.touched = append(k.touched, opath, npath)
+	od, en := k.dirOf(ofd)
+	if en != 0 {
+		return k.errno(en)
+	}
+	nd, en := k.dirOf(nfd)
+	if en != 0 {
+		return k.errno(en)
+	}
+	op, oname, oent, en := k.resolve(od, opath)
+	if en != 0 {
+		return k.errno(en)
+	}
+	if oent == nil || op == nil {
+		return k.errno(eNOENT)
+	}
+	np, nname, nent, en := k.resolve(nd, npath)
+	if en != 0 {
+		return k.errno(en)
+	}
+	if np == nil {
+		return k.errno(eINVAL)
+	}
+	if nent != nil {
+		if nent.ino == oent.ino {
+			return Iface{} // same file: no-op
+		}
+		if nent.ino.dir != oent.ino.dir {
+			if nent.ino.dir {
+				return k.errno(eISDIR)
+			}
+			return k.errno(eNOTDIR)
+		}
+		if nent.ino.dir && len(nent.ino.entries) > 0 {
+			return k.errno(eNOTEMPTY)
+		}
+		k.removeEntry(np, nname)
+		nent.ino.nlink--
+	}
+	k.removeEntry(op, oname)
+	np.entries = append(np.entries, &dirent{name: nname, ino: oent.ino})
+	k.nsRecord(nsOp{kind: "rename", dir: op, name: oname, dir2: np, name2: nname, ino: oent.ino})
+	return Iface{}
+}
+
+func (k *Kernel) sysLinkat(ofd int, opath string, nfd int, npath string) Iface {
+	if e := k.enter("linkat", fmt.Sprintf("%d,%q,%d,%q", ofd, opath, nfd, npath)); e != 0 {
+		return k.errno(e)
+	}
+	k.touched = append(k.touched, opath, npath)
+	od, en := k.dirOf(ofd)
+	if en != 0 {
+		return k.errno(en)
+	}
+	nd, en := k.dirOf(nfd)
+	if en != 0 {
+		return k.errno(en)
+	}
+	_, _, oent, en := k.resolve(od, opath)
+	if en != 0 {
+		return k.errno(en)
+	}
+	if oent == nil {
+		return k.errno(eNOENT)
+	}
+	np, nname, nent, en := k.resolve(nd, npath)
+	if en != 0 {
+		return k.errno(en)
+	}
+	if nent != nil {
+		return k.errno(eEXIST)
+	}
+	if oent.ino.dir {
+		return k.errno(eINVAL)
+	}
+	np.entries = append(np.entries, &dirent{name: nname, ino: oent.ino})
+	oent.ino.nlink++
+	k.nsRecord(nsOp{kind: "link", dir: np, name: nname, ino: oent.ino})
+	return Iface{}
+}
+
+const direntRec = 32
+
+// sysReadDirent fills buf with fixed-size records [len][name…]; "." and ".." come first.
+func (k *Kernel) sysReadDirent(fd int, buf Slice) (*Term, Iface) {
+	m := k.m
+	s := m.S
+	if e := k.enter("getdents64", fmt.Sprint(fd)); e != 0 {
+		return s.Const(64, ^uint64(0)), k.errno(e)
+	}
+	f := k.fds[fd]
+	if f == nil {
+		return s.Const(64, ^uint64(0)), k.errno(eBADF)
+	}
+	if !f.ino.dir {
+		return s.Const(64, ^uint64(0)), k.errno(eNOTDIR)
+	}
+	names := []string{".", ".."}
+	for _, e := range f.ino.entries {
+		names = append(names, e.name)
+	}
+	rest := names
+	if f.dirpos < len(names) {
+		rest = names[f.dirpos:]
+	} else {
+		rest = nil
+	}
+	max := buf.Len / direntRec
+	if len(rest) > max {
+		rest = rest[:max]
+	}
+	if k.ShortDir && len(rest) > 1 {
+		n := 1 + m.Choose(len(rest), "dirchunk")
+		rest = rest[:n]
+	}
+	arr := (*m.cell(buf.Base)).(*ArrayV)
+	for i, nm := range rest {
+		if len(nm) > direntRec-1 {
+			m.unsupported("file name longer than the dirent record of the model")
+		}
+		base := buf.Off + i*direntRec
+		arr.E[base] = s.Const(8, uint64(len(nm)))
+		for j := 0; j < direntRec-1; j++ {
+			c := byte(0)
+			if j < len(nm) {
+				c = nm[j]
+			}
+			arr.E[base+1+j] = s.Const(8, uint64(c))
+		}
+	}
+	f.dirpos += len(rest)
+	return s.Const(64, uint64(len(rest)*direntRec)), Iface{}
+}
+
+func (k *Kernel) parseDirent(buf Slice, max int, names Slice) Value {
+	m := k.m
+	s := m.S
+	bs := m.SliceBytes(buf)
+	consumed, count := 0, 0
+	cur := names
+	for consumed+direntRec <= len(bs) && (max < 0 || count < max) {
+		ln := int(m.Concretize(bs[consumed], "dirent name length"))
+		var nm []*Term
+		for j := 0; j < ln; j++ {
+			nm = append(nm, bs[consumed+1+j])
+		}
+		consumed += direntRec
+		str := Str{nm}
+		if c, ok := str.Concrete(); ok && (c == "." || c == "..") {
+			continue
+		}
+		count++
+		// append(names, str)
+		if cur.Len < cur.Cap && cur.Base.Obj != nil {
+			arr := (*m.cell(cur.Base)).(*ArrayV)
+			arr.E[cur.Off+cur.Len] = str
+			cur.Len++
+		} else {
+			old := m.SliceVals(cur)
+			nc := cur.Cap*2 + 1
+			base := m.newArrayObj(types.Typ[types.String], nc)
+			arr := base.Obj.V.(*ArrayV)
+			copy(arr.E, old)
+			arr.E[len(old)] = str
+			cur = Slice{Base: base, Off: 0, Len: len(old) + 1, Cap: nc}
+		}
+	}
+	return Tuple{s.Const(64, uint64(consumed)), s.Const(64, uint64(count)), cur}
+}
+
+// ---------------------------------------------------------------------------
+// crash / reboot
+
+// Reboot applies the durability rules: a prefix of the pending namespace operations
+// and, per file, the durable content plus a prefix of its pending data operations.
+func (k *Kernel) Reboot() {
+	m := k.m
+	k.fds = map[int]*fdesc{}
+	k.crashed = false
+	k.CrashAt = 0
+	// namespace
+	if k.durRoot != nil {
+		nkeep := m.Choose(len(k.nsPending)+1, "ns-prefix")
+		ents := map[*Inode][]*dirent{}
+		for d, es := range k.durRoot {
+			ents[d] = append([]*dirent(nil), es...)
+		}
+		for _, op := range k.nsPending[:nkeep] {
+			applyNs(ents, op)
+		}
+		var all []*Inode
+		var walk func(d *Inode)
+		seen := map[*Inode]bool{}
+		walk = func(d *Inode) {
+			if seen[d] {
+				return
+			}
+			seen[d] = true
+			d.entries = ents[d]
+			for _, e := range d.entries {
+				if e.ino.dir {
+					walk(e.ino)
+				} else if !seen[e.ino] {
+					seen[e.ino] = true
+					all = append(all, e.ino)
+				}
+			}
+		}
+		walk(k.root)
+		k.durRoot = nil
+		k.nsPending = nil
+		// data
+		for _, ino := range all {
+			k.rebootFile(ino)
+		}
+		return
+	}
+	// no namespace change since start: only file data
+	var files []*Inode
+	var walk func(d *Inode)
+	seen := map[*Inode]bool{}
+	walk = func(d *Inode) {
+		for _, e := range d.entries {
+			if e.ino.dir {
+				walk(e.ino)
+			} else if !seen[e.ino] {
+				seen[e.ino] = true
+				files = append(files, e.ino)
+			}
+		}
+	}
+	walk(k.root)
+	for _, ino := range files {
+		k.rebootFile(ino)
+	}
+}
+
+func (k *Kernel) rebootFile(ino *Inode) {
+	m := k.m
+	nkeep := 0
+	if len(ino.pending) > 0 {
+		nkeep = m.Choose(len(ino.pending)+1, "data-prefix")
+	}
+	d := cloneData(ino.dur)
+	for _, op := range ino.pending[:nkeep] {
+		switch op.kind {
+		case "write":
+			k.dataWrite(ino, &d, op.off, op.data)
+		case "trunc":
+			k.dataTrunc(ino, &d, op.off)
+		}
+	}
+	ino.vol = d
+	ino.dur = cloneData(d)
+	ino.pending = nil
+}
+
+// ---------------------------------------------------------------------------
+// harness-side helpers
+
+// PlantFile creates a file (durable) with the given content cells and (possibly symbolic) size.
+func (k *Kernel) PlantFile(path string, content []*Term, size *Term) {
+	parent, name, ent, en := k.resolve(k.root, path)
+	if en != 0 || parent == nil {
+		k.m.end("assume", "plant: bad path "+path)
+	}
+	if ent != nil {
+		k.removeEntry(parent, name)
+	}
+	ino := k.newInode(false)
+	ino.nlink = 1
+	ino.vol = fileData{Cells: append([]*Term(nil), content...), Size: size}
+	ino.dur = cloneData(ino.vol)
+	parent.entries = append(parent.entries, &dirent{name: name, ino: ino})
+}
+
+func (k *Kernel) PlantDir(path string) {
+	parent, name, ent, en := k.resolve(k.root, path)
+	if en != 0 || parent == nil {
+		k.m.end("assume", "plant: bad path "+path)
+	}
+	if ent != nil {
+		return
+	}
+	parent.entries = append(parent.entries, &dirent{name: name, ino: k.newInode(true)})
+}
+
+// FileBytes returns the volatile content of path (size concretised) and whether it exists.
+func (k *Kernel) FileBytes(path string) ([]*Term, bool) {
+	_, _, ent, en := k.resolve(k.root, path)
+	if en != 0 || ent == nil || ent.ino.dir {
+		return nil, false
+	}
+	n := int(k.m.Concretize(ent.ino.vol.Size, "file size"))
+	if n > 1<<20 {
+		k.m.end("bound", "file too large to inspect")
+	}
+	out := make([]*Term, n)
+	for i := range out {
+		out[i] = k.cellAt(ent.ino, &ent.ino.vol, i)
+	}
+	return out, true
+}
+
+func (k *Kernel) ListDir(path string) ([]string, bool) {
+	_, _, ent, en := k.resolve(k.root, path)
+	if en != 0 || ent == nil || !ent.ino.dir {
+		return nil, false
+	}
+	var out []string
+	for _, e := range ent.ino.entries {
+		out = append(out, e.name)
+	}
+	sort.Strings(out)
+	return out, true
+}
+
+func intArg(m *Machine, v Value, what string) int { return m.ConcreteInt(v.(*Term), what) }
+
+func errTuple1(m *Machine, n *Term, e Iface) Value { return Tuple{n, e} }
+
+func init() {
+	reg := func(name string, f Intrinsic) { defaultIntrinsics["golang.org/x/sys/unix."+name] = f }
+	reg("Open", func(m *Machine, fn *ssa.Function, a []Value) Value {
+		fd, e := m.K.sysOpenat(-100, concStrArg(m, a[0], "path"), intArg(m, a[1], "open flags"), "open")
+		return Tuple{m.S.Const(64, uint64(fd)), e}
+	})
+	reg("Openat", func(m *Machine, fn *ssa.Function, a []Value) Value {
+		fd, e := m.K.sysOpenat(intArg(m, a[0], "dirfd"), concStrArg(m, a[1], "path"), intArg(m, a[2], "open flags"), "openat")
+		return Tuple{m.S.Const(64, uint64(fd)), e}
+	})
+	reg("Close", func(m *Machine, fn *ssa.Function, a []Value) Value { return m.K.sysClose(intArg(m, a[0], "fd")) })
+	reg("Fsync", func(m *Machine, fn *ssa.Function, a []Value) Value { return m.K.sysFsync(intArg(m, a[0], "fd")) })
+	reg("Fstat", func(m *Machine, fn *ssa.Function, a []Value) Value {
+		k := m.K
+		fd := intArg(m, a[0], "fd")
+		if e := k.enter("fstat", fmt.Sprint(fd)); e != 0 {
+			return k.errno(e)
+		}
+		f := k.fds[fd]
+		if f == nil {
+			return k.errno(eBADF)
+		}
+		p := a[1].(Ptr)
+		st := p.Obj.T.Underlying().(*types.Struct)
+		sv := (*m.cell(p)).(*StructV)
+		for i := 0; i < st.NumFields(); i++ {
+			switch st.Field(i).Name() {
+			case "Mode":
+				mode := uint64(sIFREG | 0o644)
+				if f.ino.dir {
+					mode = sIFDIR | 0o755
+				}
+				sv.F[i] = m.S.Const(32, mode)
+			case "Size":
+				if f.ino.dir {
+					sv.F[i] = m.S.Const(64, 4096)
+				} else {
+					sv.F[i] = f.ino.vol.Size
+				}
+			case "Nlink":
+				sv.F[i] = m.S.Const(64, uint64(f.ino.nlink))
+			case "Ino":
+				sv.F[i] = m.S.Const(64, uint64(f.ino.id))
+			}
+		}
+		return Iface{}
+	})
+	reg("Ftruncate", func(m *Machine, fn *ssa.Function, a []Value) Value {
+		return m.K.sysFtruncate(intArg(m, a[0], "fd"), a[1].(*Term))
+	})
+	reg("Pread", func(m *Machine, fn *ssa.Function, a []Value) Value {
+		n, e := m.K.sysPread(intArg(m, a[0], "fd"), a[1].(Slice), a[2].(*Term))
+		return Tuple{n, e}
+	})
+	reg("Pwrite", func(m *Machine, fn *ssa.Function, a []Value) Value {
+		n, e := m.K.sysPwrite(intArg(m, a[0], "fd"), m.SliceBytes(a[1].(Slice)), a[2].(*Term), "pwrite")
+		return Tuple{n, e}
+	})
+	reg("Write", func(m *Machine, fn *ssa.Function, a []Value) Value {
+		n, e := m.K.sysPwrite(intArg(m, a[0], "fd"), m.SliceBytes(a[1].(Slice)), nil, "write")
+		return Tuple{n, e}
+	})
+	reg("Mkdirat", func(m *Machine, fn *ssa.Function, a []Value) Value {
+		return m.K.sysMkdirat(intArg(m, a[0], "dirfd"), concStrArg(m, a[1], "path"))
+	})
+	reg("Unlinkat", func(m *Machine, fn *ssa.Function, a []Value) Value {
+		return m.K.sysUnlinkat(intArg(m, a[0], "dirfd"), concStrArg(m, a[1], "path"))
+	})
+	reg("Renameat", func(m *Machine, fn *ssa.Function, a []Value) Value {
+		return m.K.sysRenameat(intArg(m, a[0], "dirfd"), concStrArg(m, a[1], "path"), intArg(m, a[2], "dirfd"), concStrArg(m, a[3], "path"))
+	})
+	reg("Linkat", func(m *Machine, fn *ssa.Function, a []Value) Value {
+		return m.K.sysLinkat(intArg(m, a[0], "dirfd"), concStrArg(m, a[1], "path"), intArg(m, a[2], "dirfd"), concStrArg(m, a[3], "path"))
+	})
+	reg("ReadDirent", func(m *Machine, fn *ssa.Function, a []Value) Value {
+		n, e := m.K.sysReadDirent(intArg(m, a[0], "fd"), a[1].(Slice))
+		return Tuple{n, e}
+	})
+	reg("ParseDirent", func(m *Machine, fn *ssa.Function, a []Value) Value {
+		return m.K.parseDirent(a[0].(Slice), intArg(m, a[1], "max"), a[2].(Slice))
+	})
+
+	// harness-side kernel controls
+	hreg := func(name string, f Intrinsic) { defaultIntrinsics["verif:"+name] = f }
+	hreg("verifPath", func(m *Machine, fn *ssa.Function, a []Value) Value {
+		return ConcStr("/"+concStrArg(m, a[0], "path"), m.S)
+	})
+	hreg("verifKernelPlantFile", func(m *Machine, fn *ssa.Function, a []Value) Value {
+		m.K.PlantFile(concStrArg(m, a[0], "path"), m.SliceBytes(a[1].(Slice)), a[2].(*Term))
+		return nil
+	})
+	hreg("verifKernelMkdir", func(m *Machine, fn *ssa.Function, a []Value) Value {
+		m.K.PlantDir(concStrArg(m, a[0], "path"))
+		return nil
+	})
+	hreg("verifKernelFile", func(m *Machine, fn *ssa.Function, a []Value) Value {
+		b, ok := m.K.FileBytes(concStrArg(m, a[0], "path"))
+		if !ok {
+			return Tuple{Slice{}, m.S.False}
+		}
+		return Tuple{m.BytesToSlice(b), m.S.True}
+	})
+	hreg("verifKernelFileSize", func(m *Machine, fn *ssa.Function, a []Value) Value {
+		_, _, ent, en := m.K.resolve(m.K.root, concStrArg(m, a[0], "path"))
+		if en != 0 || ent == nil || ent.ino.dir {
+			return Tuple{m.S.Const(64, 0), m.S.False}
+		}
+		return Tuple{ent.ino.vol.Size, m.S.True}
+	})
+	hreg("verifKernelList", func(m *Machine, fn *ssa.Function, a []Value) Value {
+		names, _ := m.K.ListDir(concStrArg(m, a[0], "path"))
+		return ConcStr(strings.Join(names, ","), m.S)
+	})
+	hreg("verifKernelFaults", func(m *Machine, fn *ssa.Function, a []Value) Value {
+		m.K.FaultsOn = a[0].(*Term).IsTrue()
+		return nil
+	})
+	hreg("verifKernelFaulted", func(m *Machine, fn *ssa.Function, a []Value) Value {
+		return ConcStr(m.K.Faulted, m.S)
+	})
+	hreg("verifKernelCrashAt", func(m *Machine, fn *ssa.Function, a []Value) Value {
+		m.K.CrashAt = m.K.nsys + intArg(m, a[0], "crash point")
+		return nil
+	})
+	hreg("verifKernelSyscalls", func(m *Machine, fn *ssa.Function, a []Value) Value {
+		return m.S.Const(64, uint64(m.K.nsys))
+	})
+	hreg("verifCrashed", func(m *Machine, fn *ssa.Function, a []Value) Value {
+		crashed := false
+		func() {
+			depth := m.depth
+			defer func() {
+				if r := recover(); r != nil {
+					if _, ok := r.(*kernelCrash); ok {
+						crashed = true
+						m.depth = depth
+						return
+					}
+					panic(r)
+				}
+			}()
+			m.CallClosure(a[0].(*Closure), nil)
+		}()
+		return m.S.Bool(crashed)
+	})
+	hreg("verifKernelReboot", func(m *Machine, fn *ssa.Function, a []Value) Value { m.K.Reboot(); return nil })
+	hreg("verifKernelShortDir", func(m *Machine, fn *ssa.Function, a []Value) Value {
+		m.K.ShortDir = a[0].(*Term).IsTrue()
+		return nil
+	})
+	hreg("verifKernelTrace", func(m *Machine, fn *ssa.Function, a []Value) Value {
+		return ConcStr(strings.Join(m.K.Trace, "; "), m.S)
+	})
+	hreg("verifKernelTraceReset", func(m *Machine, fn *ssa.Function, a []Value) Value {
+		m.K.Trace = nil
+		m.K.touched = nil
+		return nil
+	})
+	hreg("verifKernelCount", func(m *Machine, fn *ssa.Function, a []Value) Value {
+		name := concStrArg(m, a[0], "syscall name")
+		n := 0
+		for _, t := range m.K.Trace {
+			if strings.HasPrefix(t, name+"(") {
+				n++
+			}
+		}
+		return m.S.Const(64, uint64(n))
+	})
+	hreg("verifKernelTouched", func(m *Machine, fn *ssa.Function, a []Value) Value {
+		return ConcStr(strings.Join(m.K.touched, ","), m.S)
+	})
+	hreg("verifKernelOpenFds", func(m *Machine, fn *ssa.Function, a []Value) Value {
+		return m.S.Const(64, uint64(len(m.K.fds)))
+	})
+	hreg("verifKernelPreempt", func(m *Machine, fn *ssa.Function, a []Value) Value {
+		m.Sched.PreemptSyscalls = a[0].(*Term).IsTrue()
+		return nil
+	})
+}
